@@ -134,6 +134,14 @@ def gen_box(rng, d):
         a, b = a * s, b * s
         if abs(a) > 3 or abs(b) > 3:
             a, b = a / 1000, b / 1000
+        r = rng.random()
+        if r < 0.12:       # a proper interval that is very narrow for its magnitude (relative width 1e-7 .. 4e-6), either sign
+            a = rng.choice([-1, 1]) * rng.uniform(0.1, 3)
+            b = a + abs(a) * rng.choice([1e-7, 1e-6, 4e-6])
+        elif r < 0.16:     # a proper interval of tiny absolute size
+            a, b = sorted([rng.uniform(1, 9) * 1e-9, rng.uniform(1, 9) * 1e-9])
+            if rng.random() < 0.5:
+                a, b = -b, -a
         box.append((float(a), float(b)))
     return box
 
